@@ -1,6 +1,7 @@
 import TunnoxModel.Proofs.C14Trace
 import TunnoxModel.Proofs.C14List
 import TunnoxModel.Proofs.C14Fresh
+import TunnoxModel.Proofs.C14Nodes
 /-!
 # C14 — the tiered store never serves stale data or loses concurrent list updates
 
@@ -53,6 +54,8 @@ theorem skel_Incr : Gen.Skel.Storage_Incr = ["IncrBy"] := by decide
 theorem skel_IncrBy : Gen.Skel.Storage_IncrBy =
     ["cacheTierFor", "counter.IncrBy", "lockKey", "cache.Get", "cache.Set"] := by decide
 theorem skel_SetExpiration : Gen.Skel.Storage_SetExpiration = ["lockKey", "cacheTierFor", "cache.Get", "cache.Set"] := by
+  decide
+theorem skel_SetNX : Gen.Skel.Storage_SetNX = ["cacheTierFor", "nxSetter.SetNX", "cache.Exists", "cache.Set"] := by
   decide
 theorem skel_SetHash : Gen.Skel.Storage_SetHash = ["cacheTierFor().Set", "cacheTierFor"] := by decide
 theorem skel_GetHash : Gen.Skel.Storage_GetHash = ["cacheTierFor().Get", "cacheTierFor"] := by decide
@@ -117,12 +120,13 @@ connection codes and their index, id generators, client runtime state, HTTP doma
 def crossNodeKeys : List String :=
   ["tunnox:conn_state:c1", "tunnox:client_conn:7", "tunnox:tunnel_waiting:t1", "tunnox:node:n1",
    "tunnox:runtime:conncode:abc", "tunnox:index:conncode:target:7", "tunnox:id:used:client:7",
-   "tunnox:runtime:client:state:7", "tunnox:http_domain:index:a.example", "tunnox:http_domain:next_id"]
+   "tunnox:runtime:client:state:7", "tunnox:http_domain:index:a.example", "tunnox:http_domain:next_id",
+   "tunnox:http_domain:deleting:hdm_1", "lock:cleanup_task:cleanup_expired"]
 
 /-- Keys that are shared AND persisted (mapping indexes, port mappings, HTTP domain mappings, webhooks). -/
 def sharedPersistentKeys : List String :=
   ["tunnox:client_mappings:7", "tunnox:user_mappings:u1", "tunnox:port_mapping:pm1", "tunnox:mappings:list",
-   "tunnox:http_domain:mapping:hdm_1", "tunnox:http_domain:client:7", "webhook:w1", "webhooks:list",
+   "tunnox:http_domain:mapping:hdm_1", "tunnox:http_domain:mappings:list", "tunnox:http_domain:client:7", "webhook:w1", "webhooks:list",
    "webhook_log:l1", "webhook_logs:w1"]
 
 /-- Node-local persisted keys. -/
@@ -159,112 +163,251 @@ theorem C14_default_routes :
         !(route (defaultStorage true true) k).pe) = true := by
   decide +kernel
 
-/-! ## Freshness and list atomicity: every number of calls, every schedule, persistent-tier failures -/
+/-! ## Freshness and list atomicity: every number of calls, every schedule, persistent-tier failures,
+cache evictions -/
 
 /-- WF: the route comes from a facade built by `NewWithSharedCache` (its cache tier is not the persistent
 tier, `cacheTierFor` agrees with it, only pure shared data — never persisted — hands cache errors to the
-caller: all three hold for every `route h key`, see `C14_main`), no call is the internal write-back pseudo-call, and injected
-failures hit the persistent tier only (cache-tier failures are the excluded points, see the witnesses
-`C14_cache_set_fault_witness`, `C14_cache_read_fault_witness`). -/
+caller: all three hold for every `route h key`, see `C14_main`), no call is the internal write-back
+pseudo-call, injected failures hit the persistent tier only (cache-tier failures are the excluded points,
+see the witnesses `C14_cache_set_fault_witness`, `C14_cache_read_fault_witness`), and cache entries are
+evicted (TTL expiry, eviction, cache restart: at any point of the schedule, any number of times) only where a
+persistent tier backs the cache — elsewhere the "cache" holds the only copy and expiry is deletion by TTL. -/
 structure WF (R : Route) (ops : List Op) (sch : List Entry) : Prop where
   ck : R.ck ≠ .persistent
   aux : R.aux = R.ck
   pp : R.pe = true → R.passErr = false
   ops : ∀ o ∈ ops, o ≠ .wbk
   faults : ∀ e ∈ sch, e.fault = none ∨ e.fault = some .persistent
+  evict : ∀ e ∈ sch, EvictOK R e
 
 /-- **Freshness.** For every set of concurrent get/exists/set/delete calls on a key of any category, every
-schedule and every placement of persistent-tier failures: every read (and a final sequential `Get`)
-returns the value of a write — or the initial content — that had started when the read returned and is
-not older than any write that returned before the read started.  No stale value is ever brought back. -/
+schedule, every placement of persistent-tier failures and of cache evictions: every read (and a final
+sequential `Get`) returns the value of a write — or the initial content — that had started when the read
+returned and is not older than any write that returned before the read started.  No stale value is ever
+brought back, and an expired cache entry loses nothing. -/
 theorem C14_fresh (R : Route) (c s p : Option Val) (ops : List Op) (sch : List Entry)
     (wf : WF R ops sch) (hco : coherent R c s p = true) :
     holdsFresh (initVal R c s p) (model .repaired R c s p ops sch).ths
       (model .repaired R c s p ops sch).fget = true :=
-  fresh_main R c s p ops sch wf.ck wf.pp wf.ops wf.faults hco
+  fresh_main R c s p ops sch wf.ck wf.pp wf.ops wf.faults wf.evict hco
 
 /-- **List atomicity.** For every set of concurrent AppendToList/RemoveFromList calls on one list, every
-schedule and every placement of persistent-tier failures: after all calls have returned, every element
-whose append succeeded (and that no call removes) is in the list, every element whose removal succeeded
-(and that no call appends) is not, nothing else has appeared, and every initial member that no call
-removes is still there — in particular a call whose reload of the list hit a persistent-tier failure
-fails without writing (it does not take the failed read for an empty list). -/
+schedule, every placement of persistent-tier failures and of cache evictions: after all calls have returned,
+every element whose append succeeded (and that no call removes) is in the list, every element whose
+removal succeeded (and that no call appends) is not, nothing else has appeared, and every initial member
+that no call removes is still there — in particular a call whose reload of the list hit a persistent-tier
+failure fails without writing (it does not take the failed read for an empty list). -/
 theorem C14_list (R : Route) (c s p : Option Val) (ops : List Op) (sch : List Entry)
     (wf : WF R ops sch) (hco : coherent R c s p = true) :
     holdsList (initVal R c s p) (model .repaired R c s p ops sch).ths
       (model .repaired R c s p ops sch).fget = true :=
-  list_main R c s p ops sch wf.ck wf.pp wf.ops wf.faults hco
+  list_main R c s p ops sch wf.ck wf.pp wf.ops wf.faults wf.evict hco
 
-/-- **C14.** The whole property, as the runner evaluates it on the implementation's observations, holds
-for the model of the repaired code: all calls, all schedules, persistent-tier failures. -/
-theorem C14_main (h : Storage) (key : String) (hwf : WFStorage h) (c s p : Option Val) (ops : List Op)
+/-- **Declared cross-node keys.** With the regenerated default tables, EVERY key of a key family the code
+base uses across nodes (`declaredCrossNode`: connection state, node registry, connection codes, id
+generators, HTTP domain index / id counter / delete claim / mapping list, the mapping indexes, webhooks,
+the `lock:` keys of the storage-based distributed lock) is served by the shared cache when one is
+configured — never by a node-local cache. -/
+theorem C14_declared_tables (pe : Bool) : TablesCover (defaultStorage pe true) := by
+  unfold TablesCover
+  cases pe <;> decide +kernel
+
+theorem C14_declared_shared (pe : Bool) (key : String) (hd : isDeclaredCrossNode key = true) :
+    (route (defaultStorage pe true) key).ck = .shared :=
+  declared_ck_shared _ key (defaultStorage_wf pe true) rfl (C14_declared_tables pe) hd
+
+/-- **C14.** The whole property, as the runner evaluates it on the implementation's observations of a
+one-node case, holds for the model of the repaired code: every key, all calls, all schedules,
+persistent-tier failures, cache evictions (where a persistent tier backs the cache). -/
+theorem C14_main (h : Storage) (key : String) (hwf : WFStorage h)
+    (htab : h.sharedCache = some .shared → TablesCover h)
+    (c s p : Option Val) (ops : List Op)
     (sch : List Entry) (hops : ∀ o ∈ ops, o ≠ .wbk)
-    (hf : ∀ e ∈ sch, e.fault = none ∨ e.fault = some .persistent) :
-    holds (route h key) c s p (model .repaired (route h key) c s p ops sch) = true := by
+    (hf : ∀ e ∈ sch, e.fault = none ∨ e.fault = some .persistent)
+    (hev : ∀ e ∈ sch, EvictOK (route h key) e) :
+    holds (route h key)
+      { key := key, sh := h.sharedCache.isSome, twoNode := false, evicts := sch.any (·.evict.isSome) } c s p
+      (model .repaired (route h key) c s p ops sch) = true := by
   have wf : WF (route h key) ops sch :=
-    ⟨route_ck_ne_persistent h key hwf, route_aux_eq_ck h key hwf, route_passErr h key, hops, hf⟩
-  simp only [holds, Bool.and_eq_true, Bool.or_eq_true, Bool.not_eq_true']
-  refine ⟨C14_route_trace .repaired h key hwf c s p ops sch, ?_⟩
+    ⟨route_ck_ne_persistent h key hwf, route_aux_eq_ck h key hwf, route_passErr h key, hops, hf, hev⟩
+  have hroute := C14_route_trace .repaired h key hwf c s p ops sch
+  have hdecl : holdsDeclared key h.sharedCache.isSome (model .repaired (route h key) c s p ops sch).trace = true := by
+    unfold holdsDeclared
+    cases hd : isDeclaredCrossNode key with
+    | false => simp
+    | true =>
+      cases hs : h.sharedCache with
+      | none => simp
+      | some t =>
+        have hs' : h.sharedCache = some .shared := by
+          rcases hwf.2 with h1 | h1
+          · rw [hs] at h1; cases h1
+          · exact h1
+        have hck := declared_ck_shared h key hwf hs' (htab hs') hd
+        simp only [Option.isSome_some, Bool.and_self, Bool.not_true, Bool.false_or]
+        exact no_local_of_holdsRoute _ _ _ hck hroute
+  simp only [holds, Bool.and_eq_true, Bool.or_eq_true, Bool.not_eq_true', Bool.false_and, Bool.false_eq_true,
+    or_false, Bool.not_false, Bool.true_or, or_true, and_true]
+  refine ⟨⟨hroute, hdecl⟩, ?_⟩
   cases hco : coherent (route h key) c s p with
-  | false => exact Or.inl rfl
+  | false => exact Or.inl (Or.inl rfl)
   | true => exact Or.inr ⟨C14_fresh _ c s p ops sch wf hco, C14_list _ c s p ops sch wf hco⟩
+
+/-! ## Two nodes on one shared cache -/
+
+/-- **Cross-node visibility of pure shared data.** For a key whose category is Shared, with a shared cache
+configured: however the get/exists/set/delete calls are spread over two facade instances (nodes), in
+every schedule, the run is observation for observation the run on one node; hence every read on ANY node
+(and the final sequential `Get` of both nodes) returns a value that is not older than any write that had
+returned — on whichever node — before the read started. -/
+theorem C14_two_node_shared (h : Storage) (key : String) (hwf : WFStorage h) (hs : h.sharedCache = some .shared)
+    (hcat : Storage.getCategory h key = DataCategoryShared)
+    (c s p : Option Val) (ops : List Op) (nodes : List Nat) (sch : List Entry)
+    (hops : ∀ o ∈ ops, isKVop o)
+    (hf : ∀ e ∈ sch, e.fault = none ∨ e.fault = some .persistent) (hev : ∀ e ∈ sch, e.evict = none)
+    (hco : coherent (route h key) c s p = true) :
+    holdsFresh (initVal (route h key) c s p) (modelN .repaired (route h key) c s p ops nodes sch).ths
+      (modelN .repaired (route h key) c s p ops nodes sch).fget = true ∧
+    holdsFresh (initVal (route h key) c s p) (modelN .repaired (route h key) c s p ops nodes sch).ths
+      (modelN .repaired (route h key) c s p ops nodes sch).fget1 = true := by
+  have hck := route_shared_uses_shared_cache h key hwf hs (Or.inl hcat)
+  have hpe : (route h key).pe = false := by
+    cases hq : (route h key).pe with
+    | false => rfl
+    | true =>
+      rcases ((route_pe_iff h key).1 hq).1 with h1 | h1 <;> rw [hcat] at h1 <;> exact absurd h1 (by decide)
+  have hR : PureShared (route h key) := ⟨hck, by rw [route_aux_eq_ck h key hwf]; exact hck, hpe⟩
+  obtain ⟨e1, e2, e3, _, _⟩ := modelN_pure_shared hR c s p ops nodes sch hops hev
+  have hnw : ∀ o ∈ ops, o ≠ .wbk := by
+    intro o ho hw
+    rcases hops o ho with h1 | h1 | ⟨_, _, h1⟩ | h1 <;> rw [hw] at h1 <;> cases h1
+  have wf : WF (route h key) ops sch :=
+    ⟨route_ck_ne_persistent h key hwf, route_aux_eq_ck h key hwf, route_passErr h key, hnw, hf,
+     fun e he t ht => by rw [hev e he] at ht; cases ht⟩
+  have := C14_fresh _ c s p ops sch wf hco
+  rw [e1, e2, e3]
+  exact ⟨this, this⟩
 
 /-! ## Witnesses: the code as found, and the recorded findings -/
 
 /-- As found (async write-back, no key lock): a `Get` that missed the cache overlaps a `Delete`; the
 write-back lands last and the deleted value is served again. -/
 theorem C14_stale_witness :
-    holds (route (defaultStorage true false) "tunnox:user:k1") none none (some (.str 1))
+    holds (route (defaultStorage true false) "tunnox:user:k1") ⟨"tunnox:user:k1", false, false, false⟩ none none (some (.str 1))
       (model .asFound (route (defaultStorage true false) "tunnox:user:k1") none none (some (.str 1))
-        [.get, .del] [⟨0, none⟩, ⟨0, none⟩, ⟨1, none⟩, ⟨1, none⟩, ⟨2, none⟩]) = false := by
+        [.get, .del] [⟨0, none, none⟩, ⟨0, none, none⟩, ⟨1, none, none⟩, ⟨1, none, none⟩, ⟨2, none, none⟩]) = false := by
   decide +kernel
 
 /-- As found: the same with an overwriting `Set` (shared-persistent key, shared cache). -/
 theorem C14_stale_set_witness :
-    holds (route (defaultStorage true true) "tunnox:port_mapping:k1") none none (some (.str 1))
+    holds (route (defaultStorage true true) "tunnox:port_mapping:k1") ⟨"tunnox:port_mapping:k1", true, false, false⟩ none none (some (.str 1))
       (model .asFound (route (defaultStorage true true) "tunnox:port_mapping:k1") none none (some (.str 1))
-        [.get, .set (.str 5) 0] [⟨0, none⟩, ⟨0, none⟩, ⟨1, none⟩, ⟨1, none⟩, ⟨2, none⟩]) = false := by
+        [.get, .set (.str 5) 0] [⟨0, none, none⟩, ⟨0, none, none⟩, ⟨1, none, none⟩, ⟨1, none, none⟩, ⟨2, none, none⟩]) = false := by
   decide +kernel
 
 /-- As found: two appends read the same list; one entry is lost. -/
 theorem C14_lost_update_witness :
-    holds (route (defaultStorage true true) "tunnox:client_mappings:k1") none (some (.list [1])) (some (.list [1]))
+    holds (route (defaultStorage true true) "tunnox:client_mappings:k1") ⟨"tunnox:client_mappings:k1", true, false, false⟩ none (some (.list [1])) (some (.list [1]))
       (model .asFound (route (defaultStorage true true) "tunnox:client_mappings:k1")
         none (some (.list [1])) (some (.list [1]))
-        [.app 7, .app 8] [⟨0, none⟩, ⟨1, none⟩, ⟨0, none⟩, ⟨1, none⟩, ⟨0, none⟩, ⟨1, none⟩]) = false := by
+        [.app 7, .app 8] [⟨0, none, none⟩, ⟨1, none, none⟩, ⟨0, none, none⟩, ⟨1, none, none⟩, ⟨0, none, none⟩, ⟨1, none, none⟩]) = false := by
   decide +kernel
 
 /-- The same schedules are harmless after the repair. -/
 example :
-    holds (route (defaultStorage true false) "tunnox:user:k1") none none (some (.str 1))
+    holds (route (defaultStorage true false) "tunnox:user:k1") ⟨"tunnox:user:k1", false, false, false⟩ none none (some (.str 1))
       (model .repaired (route (defaultStorage true false) "tunnox:user:k1") none none (some (.str 1))
-        [.get, .del] [⟨0, none⟩, ⟨0, none⟩, ⟨1, none⟩, ⟨1, none⟩, ⟨0, none⟩, ⟨1, none⟩, ⟨1, none⟩]) = true := by
+        [.get, .del] [⟨0, none, none⟩, ⟨0, none, none⟩, ⟨1, none, none⟩, ⟨1, none, none⟩, ⟨0, none, none⟩, ⟨1, none, none⟩, ⟨1, none, none⟩]) = true := by
   decide +kernel
 
 /-- Known finding `cache-set-fault-swallowed` (excluded by `WF.faults`): the persistent `Set` succeeds,
 the cache `Set` fails and is only logged; `Set` returns nil and the cache keeps serving the old value. -/
 theorem C14_cache_set_fault_witness :
-    holds (route (defaultStorage true false) "tunnox:user:k1") (some (.str 1)) none (some (.str 1))
+    holds (route (defaultStorage true false) "tunnox:user:k1") ⟨"tunnox:user:k1", false, false, false⟩ (some (.str 1)) none (some (.str 1))
       (model .repaired (route (defaultStorage true false) "tunnox:user:k1") (some (.str 1)) none (some (.str 1))
-        [.set (.str 5) 0] [⟨0, none⟩, ⟨0, some .cache⟩]) = false := by
+        [.set (.str 5) 0] [⟨0, none, none⟩, ⟨0, some .cache, none⟩]) = false := by
   decide +kernel
 
 /-- Known finding `cache-read-fault-masked` (excluded by `WF.faults`): a failing cache read of a runtime
 key is reported as "not found". -/
 theorem C14_cache_read_fault_witness :
-    holds (route (defaultStorage false false) "tunnox:session:k1") (some (.str 1)) none none
+    holds (route (defaultStorage false false) "tunnox:session:k1") ⟨"tunnox:session:k1", false, false, false⟩ (some (.str 1)) none none
       (model .repaired (route (defaultStorage false false) "tunnox:session:k1") (some (.str 1)) none none
-        [.get] [⟨0, some .cache⟩]) = false := by
+        [.get] [⟨0, some .cache, none⟩]) = false := by
+  decide +kernel
+
+/-! ### Two nodes: recorded findings (the key lock and the local cache are per node) -/
+
+/-- Known finding `cross-node-writeback`: a shared-and-persisted key, two nodes on one shared cache.  Node 1
+misses the shared cache and reads the persistent tier; node 0 deletes the key (its own key lock does not
+exclude node 1); node 1's write-back lands last: the shared cache serves the deleted value to every node. -/
+theorem C14_two_node_writeback_witness :
+    holds (route (defaultStorage true true) "tunnox:client_mappings:k1")
+      ⟨"tunnox:client_mappings:k1", true, true, false⟩ none none (some (.str 1))
+      (modelN .repaired (route (defaultStorage true true) "tunnox:client_mappings:k1") none none (some (.str 1))
+        [.del, .get] [0, 1] [⟨1, none, none⟩, ⟨1, none, none⟩, ⟨0, none, none⟩, ⟨0, none, none⟩, ⟨1, none, none⟩])
+      = false := by
+  decide +kernel
+
+/-- Known finding `cross-node-local-cache`: a persisted node-local-cache key (user, client configuration, …)
+in a cluster.  Node 1 overwrites it; node 0 keeps serving its cached copy until the 24 h cache TTL. -/
+theorem C14_two_node_local_cache_witness :
+    holds (route (defaultStorage true true) "tunnox:user:k1")
+      ⟨"tunnox:user:k1", true, true, false⟩ (some (.str 1)) none (some (.str 1))
+      (modelN .repaired (route (defaultStorage true true) "tunnox:user:k1") (some (.str 1)) none (some (.str 1))
+        [.get, .set (.str 5) 0] [0, 1] [⟨1, none, none⟩, ⟨1, none, none⟩, ⟨0, none, none⟩])
+      = false := by
+  decide +kernel
+
+/-- Known finding `cross-node-list-update`: two nodes append to one shared index list; get-modify-set is
+atomic per node only, one entry is lost. -/
+theorem C14_two_node_list_witness :
+    holds (route (defaultStorage false true) "tunnox:index:conncode:target:k1")
+      ⟨"tunnox:index:conncode:target:k1", true, true, false⟩ none (some (.list [1])) none
+      (modelN .repaired (route (defaultStorage false true) "tunnox:index:conncode:target:k1")
+        none (some (.list [1])) none
+        [.app 7, .app 8] [0, 1] [⟨0, none, none⟩, ⟨1, none, none⟩, ⟨0, none, none⟩, ⟨1, none, none⟩])
+      = false := by
+  decide +kernel
+
+/-- … while sequential use across the two nodes is fine (visibility itself holds). -/
+example :
+    holds (route (defaultStorage true true) "tunnox:client_mappings:k1")
+      ⟨"tunnox:client_mappings:k1", true, true, false⟩ none none (some (.list [1]))
+      (modelN .repaired (route (defaultStorage true true) "tunnox:client_mappings:k1") none none (some (.list [1]))
+        [.app 7, .app 8, .getl] [0, 1, 0]
+        [⟨0, none, none⟩, ⟨0, none, none⟩, ⟨0, none, none⟩, ⟨0, none, none⟩, ⟨0, none, none⟩,
+         ⟨1, none, none⟩, ⟨1, none, none⟩, ⟨1, none, none⟩, ⟨2, none, none⟩]) = true := by
   decide +kernel
 
 /-! ## Non-vacuity -/
 
+/-- The eviction hypothesis is inhabited: a persisted key whose cache entry expires between the two steps
+of a `Set` and again before a `Get`. -/
+example : WF (route (defaultStorage true false) "tunnox:user:k1") [.set (.str 5) 0, .get]
+    [⟨0, none, none⟩, ⟨0, none, some .cache⟩, ⟨0, none, none⟩, ⟨0, none, some .cache⟩, ⟨1, none, none⟩, ⟨1, none, none⟩] :=
+  ⟨route_ck_ne_persistent _ _ (defaultStorage_wf _ _), route_aux_eq_ck _ _ (defaultStorage_wf _ _),
+   route_passErr _ _, by decide, by decide, by
+    intro e he t ht
+    have hpe : (route (defaultStorage true false) "tunnox:user:k1").pe = true := by decide +kernel
+    simp only [List.mem_cons, List.mem_nil_iff, or_false] at he
+    rcases he with rfl | rfl | rfl | rfl | rfl | rfl <;> simp at ht <;> (subst ht; exact ⟨rfl, by decide, hpe⟩)⟩
+
+/-- The declared-key clause is not vacuous: it rejects a `lock:` key served by the local cache. -/
+example : holdsDeclared "lock:cleanup_task:x" true [⟨0, .cache, .setnx (.str 1) 5, .b true⟩] = false := by
+  decide +kernel
+
+
 /-- `WF` is inhabited by a non-trivial case: three concurrent calls on a persisted key, a schedule with a
 persistent-tier failure. -/
 example : WF (route (defaultStorage true false) "tunnox:user:k1") [.get, .set (.str 5) 0, .del]
-    [⟨0, none⟩, ⟨1, some .persistent⟩, ⟨2, none⟩, ⟨0, none⟩, ⟨2, none⟩, ⟨0, none⟩] :=
+    [⟨0, none, none⟩, ⟨1, some .persistent, none⟩, ⟨2, none, none⟩, ⟨0, none, none⟩, ⟨2, none, none⟩, ⟨0, none, none⟩] :=
   ⟨route_ck_ne_persistent _ _ (defaultStorage_wf _ _), route_aux_eq_ck _ _ (defaultStorage_wf _ _),
-   route_passErr _ _, by decide, by decide⟩
+   route_passErr _ _, by decide, by decide, by
+    intro e he t ht
+    simp only [List.mem_cons, List.mem_nil_iff, or_false] at he
+    rcases he with rfl | rfl | rfl | rfl | rfl | rfl <;> simp at ht⟩
 
 /-- `coherent` holds for the cache-miss situation the defect needs (cache empty, value persisted). -/
 example : coherent (route (defaultStorage true false) "tunnox:user:k1") none none (some (.str 1)) = true := by
@@ -282,9 +425,9 @@ example : holdsList (some (.list [1, 2])) [⟨.app 7, 1, 3, some .ok⟩] (.val (
 the members stay. -/
 example :
     (model .repaired (route (defaultStorage true true) "tunnox:client_mappings:k1") none none (some (.list [1, 2]))
-      [.app 7] [⟨0, none⟩, ⟨0, some .persistent⟩]).fget = .val (.list [1, 2]) ∧
+      [.app 7] [⟨0, none, none⟩, ⟨0, some .persistent, none⟩]).fget = .val (.list [1, 2]) ∧
     ((model .repaired (route (defaultStorage true true) "tunnox:client_mappings:k1") none none (some (.list [1, 2]))
-      [.app 7] [⟨0, none⟩, ⟨0, some .persistent⟩]).ths.map (·.res)) = [some .err] := by
+      [.app 7] [⟨0, none, none⟩, ⟨0, some .persistent, none⟩]).ths.map (·.res)) = [some .err] := by
   decide +kernel
 
 /-- The list predicate rejects a lost append. -/
